@@ -508,10 +508,12 @@ impl Check for RwaCheck {
                 Step::Unpause => ("unpause", c.try_unpause().is_ok()),
                 Step::SetIdentity { who, ok } => {
                     ic.set_failing(&a(*who), &!*ok);
+                    st.hit("collab.identity_verdict_scripted");
                     ("set_identity", true)
                 }
                 Step::SetCompliance { can_transfer, can_create, trap } => {
                     cc.script(can_transfer, can_create, trap);
+                    st.hit("collab.compliance_scripted");
                     ("set_compliance", true)
                 }
                 Step::SetTarget { old, new } => {
@@ -533,6 +535,15 @@ impl Check for RwaCheck {
                         _ => {}
                     }
                 }
+            }
+            if matches!(s, Step::Transfer { signed: false, .. } | Step::TransferFrom { signed: false, .. }) {
+                st.hit("fault.auth_missing");
+            }
+            if m.trap && matches!(s, Step::Mint { .. } | Step::Transfer { .. } | Step::TransferFrom { .. } | Step::Forced { .. } | Step::Burn { .. } | Step::Recover { .. }) {
+                st.hit("fault.compliance_hook_trap_after_balance_write");
+            }
+            if !m.ct && matches!(s, Step::Transfer { .. } | Step::TransferFrom { .. }) {
+                st.hit("fault.compliance_denies");
             }
             if under_closed_gate {
                 st.hit(if kind == "transfer" { "probe.transfer_under_closed_gate" } else { "probe.transfer_from_under_closed_gate" });
